@@ -1,11 +1,17 @@
 # per-property evidence level and explanation (see DESIGN.md section 6)
 LEVELS = {
+    'C01': 'other',
+    'C03': 'other',
+    'C22': 'other',
     'C25': 'proof',
     'C26': 'proof',
     'C27': 'proof',
     'C28': 'proof',
 }
 EXPLAIN = {
+    'C01': 'BOUNDED stand-in (not a proof): ghost-state obligations on the real scan code (both strategies, the odd-address fallback, retire, detach) over harness-built worlds of a few thread records, hazard slots and retired pointers, exhaustive inside the bound; a witness hazard slot holds the protected pointer for the whole pass while every other slot returns arbitrary values (all interleavings of other threads with the pass). The disposer stub asserts it is never called on the protected pointer.',
+    'C03': 'BOUNDED stand-in (not a proof): a tracked retired object is followed through scan, retire, help_scan, detach and the destructor of the real code: disposed at most once, exactly once when unprotected / at destruction, never invented, conserved by adoption of abandoned records. HP only; DHP is covered by unit dhp_scan when present.',
+    'C22': 'Rely/guarantee obligations with ghost ownership on the real lock code: every write of the calling thread is checked against the guarantee (takes only a free lock, releases only its own, reference counts match), the environment step applies any interference the rely allows before every atomic access; postconditions and the lock invariant are asserted after each call. Spin loops are closed by a fairness budget (bounded), loop-free functions are unbounded.',
     'C28': 'metrics::make is enforced against the normalised-layout contract for all head/array values and hash sizes 1..64 bytes; consecutive cuts/reset/eos of the real splitters are enforced; exact consumption, same-path and the divergence induction step are lemmas over the metrics and cut contracts.',
     'C27': 'regular_hash/dummy_hash (three reversal algorithms), bucket_no and parent_bucket of the three SplitListSet variants are enforced against contracts for all 64-bit hashes and all table sizes 2^0..2^63; the ordering statements of the property are lemmas discharged over those contracts only.',
     'C26': 'inc/dec of the real bit_reverse_counter<size_t> carry contracts over the state predicate wf(c,r,h) for ALL 2^64 counter states (loops closed by width-complete unwinding); the undo sentence is additionally enforced on two- and three-call sequences of the real code; level/injectivity/prefix lemmas are discharged over the predicate alone. The literal every-n prefix statement is a known finding (false for n != 2^k-1 by design).',
